@@ -97,8 +97,15 @@ static void faithful_case(uint64_t index)
   /* PU index clause */
   unsigned *pu_idx = malloc(npus * sizeof *pu_idx);
   for (unsigned long j = 0; j < npus; j++) pu_idx[j] = (unsigned)j;
-  int idx_mode = structural_ok ? (int)hv_below(&R, 4) : 0;     /* 0 none, 1 explicit permutation, 2 explicit sparse, 3 interleave by one ancestor type */
-  unsigned il_level = 0;
+  int idx_mode = structural_ok ? (int)hv_below(&R, 5) : 0;     /* 0 none, 1 explicit permutation, 2 explicit sparse, 3 interleave by one ancestor type, 4 by a list of ancestor types in any order */
+  unsigned il_level = 0, il_list[3], il_n = 0;
+  if (idx_mode == 4) {
+    unsigned cand[12], nc = 0;
+    for (unsigned i = 0; i + 1 < nl; i++) if (lv[i].type != HWLOC_OBJ_GROUP && lv[i].type != HWLOC_OBJ_NUMANODE && lv[i].name[0]) cand[nc++] = i;
+    if (nc < 2) idx_mode = nc ? 3 : 0;
+    else { il_n = 2 + (nc > 2 && hv_chance(&R, 1, 2));
+      for (unsigned k = 0; k < il_n; k++) { unsigned pick = (unsigned)hv_below(&R, nc - k), t2 = cand[pick]; cand[pick] = cand[nc - k - 1]; il_list[k] = t2; }   /* distinct levels, any order: top-down, bottom-up, mixed */ }
+  }
   if (idx_mode == 3) {
     unsigned cand[12], nc = 0;
     for (unsigned i = 0; i + 1 < nl; i++) if (lv[i].type != HWLOC_OBJ_GROUP && lv[i].type != HWLOC_OBJ_NUMANODE) cand[nc++] = i;
@@ -110,6 +117,22 @@ static void faithful_case(uint64_t index)
   } else if (idx_mode == 3) {
     unsigned long w = lv[il_level].width, step = npus / w;
     for (unsigned long j = 0; j < npus; j++) pu_idx[j] = (unsigned)((j / step) % w + (j % step) * w);
+  } else if (idx_mode == 4) {
+    /* "interleaved by the first listed type first, then by the next one ...": the coordinate of PU j for a listed level is the rank of
+     * its ancestor of that level inside the closest listed level above it (or inside the machine); the first listed type is the
+     * least significant digit, what is left (the rank of the PU inside its deepest listed ancestor) is the most significant one */
+    unsigned long mul = 1, deepest_step = npus; int bottom_up = 0;
+    for (unsigned k = 0; k + 1 < il_n; k++) if (il_list[k] > il_list[k + 1]) bottom_up = 1;
+    for (unsigned long j = 0; j < npus; j++) pu_idx[j] = 0;
+    for (unsigned k = 0; k < il_n; k++) {
+      unsigned me = il_list[k]; unsigned long above = 1;
+      for (unsigned q = 0; q < il_n; q++) if (il_list[q] < me && lv[il_list[q]].width > above) above = lv[il_list[q]].width;
+      unsigned long step = npus / lv[me].width, nb = lv[me].width / above;
+      for (unsigned long j = 0; j < npus; j++) pu_idx[j] += (unsigned)(((j / step) % nb) * mul);
+      mul *= nb; if (step < deepest_step) deepest_step = step;
+    }
+    for (unsigned long j = 0; j < npus; j++) pu_idx[j] += (unsigned)((j % deepest_step) * mul);
+    hv_stat(bottom_up ? "faithful.interleave_list_not_top_down" : "faithful.interleave_list_top_down", 1);
   }
   /* render */
   for (unsigned i = 0; i < nl; i++) {
@@ -134,6 +157,7 @@ static void faithful_case(uint64_t index)
     if (i == nl - 1 && idx_mode) {
       hv_str_add(&d, open ? " indexes=" : "(indexes="); open = 1;
       if (idx_mode == 3) hv_str_add(&d, "%s", lv[il_level].name);
+      else if (idx_mode == 4) for (unsigned k = 0; k < il_n; k++) hv_str_add(&d, "%s%s", k ? ":" : "", lv[il_list[k]].name);
       else for (unsigned long j = 0; j < npus; j++) hv_str_add(&d, "%s%u", j ? "," : "", pu_idx[j]);
     }
     if (open) hv_str_add(&d, ")");
